@@ -27,7 +27,7 @@ def all_eq(a, b):
     return z3.And([x == y for x, y in zip(a, b)]) if a else z3.BoolVal(True)
 
 
-def c03_digests(ctx, mask, hs, ps):
+def c03_digests(ctx, mask, hs, ps, md5_len=16):
     """mask: 1 MD5, 2 SHA1, 4 SHA256, 8 payload digest (+algo). hs: extra symbolic store bytes in the main header,
     ps: payload bytes (symbolic). Every recorded value and the algorithm id are symbolic."""
     vd = ctx.impl_fn("verify_digests", None, "Package")
@@ -38,7 +38,7 @@ def c03_digests(ctx, mask, hs, ps):
                   "all recorded digests, the algorithm id, header store and payload bytes symbolic; digests are uninterpreted functions of the hashed bytes" % (mask, hs, ps))
 
     def setup(e):
-        inp = dict(md5=sym_bytes(e, "m", 16, 0, 255), sha1=sym_bytes(e, "s", 40, 0x20, 0x7e), sha256=sym_bytes(e, "S", 64, 0x20, 0x7e),
+        inp = dict(md5=sym_bytes(e, "m", md5_len, 0, 255), sha1=sym_bytes(e, "s", 40, 0x20, 0x7e), sha256=sym_bytes(e, "S", 64, 0x20, 0x7e),
                    pd=sym_bytes(e, "p", 64, 0x20, 0x7e), algo=z3.BitVec("algo", 32), store=sym_bytes(e, "h", hs, 0, 255), content=sym_bytes(e, "c", ps, 0, 255))
         return inp
 
@@ -144,7 +144,7 @@ def replay_c03(ctx, fl):
             sig_e.append((sigtag("RPMSIGTAG_SHA256"), "StringTag", len(sig_s), 1))
             sig_s += sha256 + b"\0"
         if mask & 1:
-            sig_e.append((sigtag("RPMSIGTAG_MD5"), "Bin", len(sig_s), 16))
+            sig_e.append((sigtag("RPMSIGTAG_MD5"), "Bin", len(sig_s), len(md5)))
             sig_s += md5
         ent, st = [], store0
         if mask & 8:
@@ -166,11 +166,13 @@ def replay_c03(ctx, fl):
         ans = ctx.native.ask("digests", pkg.hex())
         return ans == "panic", "real crate: verify_digests -> %s (algorithm id %d)" % (ans, algo)
     tried = []
+    ml = len(bytes.fromhex(fl.get("md5", ""))) if mask & 1 else 16
     for pd_ok in ((True, False) if mask & 8 else (True,)):
         pd = true_pd if pd_ok else (b"f" * 64 if true_pd != b"f" * 64 else b"e" * 64)
         _, hdr = build(b"\0" * 16, b"0" * 40, b"0" * 64, pd)
         cands = {
-            "md5": [("true", hashlib.md5(hdr + content).digest()), ("header only", hashlib.md5(hdr).digest()), ("payload only", hashlib.md5(content).digest()), ("junk", b"\x55" * 16)],
+            "md5": [("true", hashlib.md5(hdr + content).digest()), ("header only", hashlib.md5(hdr).digest()), ("payload only", hashlib.md5(content).digest()), ("junk", b"\x55" * 16)]
+            if ml == 16 else [("prefix of the true digest (%d bytes)" % ml, (hashlib.md5(hdr + content).digest() * 3)[:ml])],
             "sha1": [("true", hashlib.sha1(hdr).hexdigest().encode()), ("header+payload", hashlib.sha1(hdr + content).hexdigest().encode()), ("upper", hashlib.sha1(hdr).hexdigest().upper().encode()), ("junk", b"5" * 40)],
             "sha256": [("true", hashlib.sha256(hdr).hexdigest().encode()), ("header+payload", hashlib.sha256(hdr + content).hexdigest().encode()), ("payload", true_pd), ("junk", b"5" * 64)],
         }
@@ -192,6 +194,8 @@ def replay_c03(ctx, fl):
 REPLAYERS["c03"] = replay_c03
 for _m in range(16):
     HARNESSES["c03_digests_m%02d" % _m] = (lambda m: (lambda ctx: c03_digests(ctx, m, 2, 3)))(_m)
+for _l in (0, 1, 8, 15, 17, 32):
+    HARNESSES["c03_md5len_%d" % _l] = (lambda l: (lambda ctx: c03_digests(ctx, 1, 2, 3, md5_len=l)))(_l)
 
 
 def c04_payload_digest(ctx, items):
@@ -1779,3 +1783,256 @@ def replay_deps(ctx, fl):
 
 
 REPLAYERS["c05"] = (lambda prev: (lambda ctx, fl: replay_deps(ctx, fl) if fl.get("kind") == "c05deps" else prev(ctx, fl)))(REPLAYERS["c05"])
+
+
+# ---------------------------------------------------------------------------------------------------------
+# C09: signature padding arithmetic; C08: per-file digest recorded by the builder when a file is added
+# ---------------------------------------------------------------------------------------------------------
+def c09_sigpad(ctx):
+    pr = ctx.impl_fn("padding_required", None, "Header")
+    ex = Exec(ctx.funcs, intrinsics.I)
+    ctx.stats = ex.stats
+    ctx.bounds = "Header::<IndexSignatureTag>::padding_required for every data section size (u32)"
+
+    def on_path(e, d, out):
+        k, v = out
+        ctx.cover("computed", k == "return")
+        if k != "return" or e._check(z3.Not(z3.And(z3.ULT(v.e, 8), z3.URem(z3.ZeroExt(8, d) + z3.ZeroExt(8, v.e), 8) == 0))):
+            ctx.fail("signature header padding is not the 0..7 bytes that align the store to 8", "Header::padding_required", kind="sigpad")
+    ex.run_all(lambda e: z3.BitVec("d", 32), lambda e, d: e.call_fn(pr, [Ref(Cell(header([], [], n=0, size=Int(d, "u32"))))]), on_path)
+
+
+HARNESSES["c09_sigpad"] = c09_sigpad
+
+
+def c08_filedigest(ctx, same_dest):
+    ad = ctx.impl_fn("add_data", None, "PackageBuilder")
+    ex = Exec(ctx.funcs, intrinsics.I, max_steps=400000)
+    ctx.stats = ex.stats
+    ctx.bounds = ("PackageBuilder::add_data called twice (%s destination, contents of 2 symbolic bytes each, same modification time): every stored file entry records hex(SHA-256(its own content)) "
+                  "(SHA-256 as an uninterpreted function)" % ("the same" if same_dest else "different"))
+    from symex import Opaque
+    from intrinsics3 import MapV
+
+    def setup(e):
+        return sym_bytes(e, "x", 2, 0, 255), sym_bytes(e, "y", 2, 0, 255)
+
+    def body(e, inp):
+        fields = [Opaque("builder-field-%d" % i) for i in range(52)]
+        fields[10] = MapV()
+        fields[11] = MapV()
+        cell = Cell(Adt("PackageBuilder", "PackageBuilder", fields))
+
+        def opts(dest):
+            return Adt("FileOptions", "FileOptions", [string(dest), string(b"root"), string(b"root"), string(b""), Adt("FileMode", "Regular", [Int(0o664, "u16")]),
+                                                      Opaque("FileFlags"), Bool_(False), Adt("Option", "None"), Opaque("FileVerifyFlags")])
+        ts = Adt("Timestamp", "Timestamp", [Int(7, "u32")])
+        r1 = e.call_fn(ad, [Ref(cell), byte_vec(inp[0]), ts, opts(b"/d/f")])
+        r2 = e.call_fn(ad, [Ref(cell), byte_vec(inp[1]), ts, opts(b"/d/f" if same_dest else b"/d/g")])
+        return r1, r2, cell.v.fields[10]
+
+    def on_path(e, inp, out):
+        k, v = out
+        if k != "return":
+            ctx.fail("adding a file panics: %s" % (v,), "PackageBuilder::add_data", kind="c08fd")
+            return
+        r1, r2, files = v
+        ctx.cover("files added", r1.variant == "Ok" and r2.variant == "Ok")
+        for ent in files.vals:
+            # PackageFileEntry { size, mode, modified_at, sha_checksum, link, flags, user, group, base_name, dir, caps, verify_flags, content }
+            content = as_bytes(e, ent.fields[12])
+            want = hexchars(uf_digest("sha256", content))
+            got = intrinsics.as_str(e, ent.fields[3]).bytes()
+            size_ok = not e._check(ent.fields[0].e != len(content))
+            if len(got) != 64 or e._check(z3.Not(all_eq(got, want))) or not size_ok:
+                ctx.fail("a file entry records a digest (or size) that is not that of the content stored with it", "PackageBuilder::add_data", kind="c08fd", same_dest=same_dest)
+                return
+    ex.run_all(setup, body, on_path)
+
+
+HARNESSES["c08_filedigest_same"] = lambda ctx: c08_filedigest(ctx, True)
+HARNESSES["c08_filedigest_diff"] = lambda ctx: c08_filedigest(ctx, False)
+REPLAYERS["c08"] = (lambda prev: (lambda ctx, fl: replay_filedigest(ctx, fl) if fl.get("kind") == "c08fd" else prev(ctx, fl)))(REPLAYERS["c08"])
+REPLAYERS["c09"] = (lambda prev: (lambda ctx, fl: (False, "padding arithmetic witness: see c01_sigpad_arith (Kani) for a native replay") if fl.get("kind") == "sigpad" else prev(ctx, fl)))(REPLAYERS["c09"])
+
+
+def replay_filedigest(ctx, fl):
+    ans = ctx.native.ask("filedigest")
+    return ans.startswith("bad"), "real crate: two with_file calls on the same destination with equal size/mtime and different content, then per-file digests vs content -> " + ans
+
+
+# ---------------------------------------------------------------------------------------------------------
+# C05: get_file_entries (ten-way zip) on a header holding every per-file tag, 32- and 64-bit size variants
+# ---------------------------------------------------------------------------------------------------------
+def c05_file_entries(ctx, n, long_sizes):
+    gf = ctx.impl_fn("get_file_entries", None, "PackageMetadata")
+    ex = Exec(ctx.funcs, intrinsics.I, max_steps=600000)
+    ctx.stats = ex.stats
+    ctx.bounds = ("get_file_entries on a header with %d files: modes, mtimes, flags, %s sizes, dir indexes symbolic; user/group/link/base names 1 symbolic byte; "
+                  "decoy total-size tags present (SIZE, LONGSIZE)" % (n, "64-bit (LONGFILESIZES)" if long_sizes else "32-bit (FILESIZES)"))
+
+    def setup(e):
+        return dict(modes=[z3.BitVec("m%d" % i, 16) for i in range(n)], mt=[z3.BitVec("t%d" % i, 32) for i in range(n)], fl=[z3.BitVec("f%d" % i, 32) for i in range(n)],
+                    sz=[z3.BitVec("s%d" % i, 64 if long_sizes else 32) for i in range(n)], user=[sym_bytes(e, "u%d_" % i, 1, 0x61, 0x7a) for i in range(n)],
+                    group=[sym_bytes(e, "g%d_" % i, 1, 0x61, 0x7a) for i in range(n)], link=[sym_bytes(e, "l%d_" % i, 1, 0x61, 0x7a) for i in range(n)],
+                    base=[sym_bytes(e, "b%d_" % i, 1, 0x61, 0x7a) for i in range(n)], total=z3.BitVec("total", 64))
+
+    def body(e, inp):
+        def sa(key):
+            return index_data("StringArray", VecV([string(x) for x in inp[key]]))
+        ents = [
+            index_entry(tag("RPMTAG_FILEMODES"), index_data("Int16", VecV([Int(x, "u16") for x in inp["modes"]]))),
+            index_entry(tag("RPMTAG_FILEUSERNAME"), sa("user")), index_entry(tag("RPMTAG_FILEGROUPNAME"), sa("group")),
+            index_entry(tag("RPMTAG_FILEDIGESTS"), index_data("StringArray", VecV([string(b"") for _ in range(n)]))),
+            index_entry(tag("RPMTAG_FILEMTIMES"), index_data("Int32", VecV([Int(x, "u32") for x in inp["mt"]]))),
+            index_entry(tag("RPMTAG_FILEFLAGS"), index_data("Int32", VecV([Int(x, "u32") for x in inp["fl"]]))),
+            index_entry(tag("RPMTAG_FILELINKTOS"), sa("link")),
+            index_entry(tag("RPMTAG_BASENAMES"), sa("base")),
+            index_entry(tag("RPMTAG_DIRINDEXES"), index_data("Int32", VecV([Int(0, "u32") for _ in range(n)]))),
+            index_entry(tag("RPMTAG_DIRNAMES"), index_data("StringArray", VecV([string(b"/d/")]))),
+            # decoys: package totals that must not be mistaken for per-file sizes
+            index_entry(tag("RPMTAG_SIZE"), index_data("Int32", VecV([Int(z3.Extract(31, 0, inp["total"]), "u32")]))),
+            index_entry(tag("RPMTAG_LONGSIZE"), index_data("Int64", VecV([Int(inp["total"], "u64")]))),
+        ]
+        if long_sizes:
+            ents.append(index_entry(tag("RPMTAG_LONGFILESIZES"), index_data("Int64", VecV([Int(x, "u64") for x in inp["sz"]]))))
+        else:
+            ents.append(index_entry(tag("RPMTAG_FILESIZES"), index_data("Int32", VecV([Int(x, "u32") for x in inp["sz"]]))))
+        from rpmvals import metadata
+        return e.call_fn(gf, [Ref(Cell(metadata(header([], []), header(ents, []))))])
+
+    def on_path(e, inp, out):
+        k, v = out
+        if k != "return":
+            ctx.fail("file entry listing panics: %s" % (v,), "PackageMetadata::get_file_entries", kind="c05fe", n=n, long=long_sizes)
+            return
+        ctx.cover("entries returned", v.variant == "Ok")
+        if v.variant != "Ok" or len(v.fields[0].items) != n:
+            ctx.fail("file entry list has the wrong length (%s) or is an error" % (len(v.fields[0].items) if v.variant == "Ok" else "err"), "PackageMetadata::get_file_entries", kind="c05fe", n=n, long=long_sizes)
+            return
+        for i, fe in enumerate(v.fields[0].items):
+            # FileEntry { path, mode, ownership, modified_at, size, flags, digest, caps, linkto, ima_signature }
+            path, mode, own, mt, size, flags, digest, caps, linkto, ima = [intrinsics.deref_all(e, x) for x in fe.fields]
+            conds = [mt.fields[0].e == inp["mt"][i], size.e == (inp["sz"][i] if long_sizes else z3.ZeroExt(32, inp["sz"][i])), flags.fields[0].e == inp["fl"][i]]
+            conds += [x == y for x, y in zip(intrinsics.as_str(e, own.fields[0]).bytes(), inp["user"][i])]
+            conds += [x == y for x, y in zip(intrinsics.as_str(e, own.fields[1]).bytes(), inp["group"][i])]
+            conds += [x == y for x, y in zip(intrinsics.as_str(e, linkto).bytes(), inp["link"][i])]
+            want_path = [ord("/"), ord("d"), ord("/")] + inp["base"][i]
+            conds += [x == (z3.BitVecVal(y, 8) if isinstance(y, int) else y) for x, y in zip(path.bs, want_path)] + [z3.BoolVal(len(path.bs) == len(want_path))]
+            if e._check(z3.Not(z3.And(conds))):
+                ctx.fail("file entry %d does not carry the per-file attributes of the header (mtime, size, flags, owner, link target, path)" % i, "PackageMetadata::get_file_entries", kind="c05fe", n=n, long=long_sizes)
+                return
+    ex.run_all(setup, body, on_path)
+
+
+def replay_fe(ctx, fl):
+    import struct
+    import rpmbytes as RB
+    n = max(fl.get("n", 2), 2)
+    ent, st = RB.file_header(n)
+    # add the totals (and, for the 64-bit variant, replace FILESIZES by LONGFILESIZES)
+    ent = list(ent)
+    if fl.get("long"):
+        ent = [x for x in ent if x[0] != 1028]
+        st += b"\0" * ((8 - len(st) % 8) % 8)
+        ent.append((5008, "Int64", len(st), n))
+        st += b"".join(struct.pack(">Q", 3) for _ in range(n))
+    st += b"\0" * ((8 - len(st) % 8) % 8)
+    ent.append((5009, "Int64", len(st), 1))
+    st += struct.pack(">Q", 3 * n)
+    meta = RB.lead() + RB.sig_header([], b"") + RB.header(sorted(ent), st)
+    ans = ctx.native.ask("file_entries", meta.hex())
+    good = ans == "ok " + ",".join("3" for _ in range(n))
+    return not good, "real crate: get_file_entries sizes on a %d-file header (%s sizes, LONGSIZE total present) -> %s" % (n, "64-bit" if fl.get("long") else "32-bit", ans[:80])
+
+
+for _n in (1, 2):
+    for _l in (False, True):
+        HARNESSES["c05_fentries_%d_%s" % (_n, "long" if _l else "u32")] = (lambda n, l: (lambda ctx: c05_file_entries(ctx, n, l)))(_n, _l)
+REPLAYERS["c05"] = (lambda prev: (lambda ctx, fl: replay_fe(ctx, fl) if fl.get("kind") == "c05fe" else prev(ctx, fl)))(REPLAYERS["c05"])
+
+
+# ---------------------------------------------------------------------------------------------------------
+# C12 (partial): every path Package::extract hands to the file system lies inside the target directory; no panic
+# ---------------------------------------------------------------------------------------------------------
+def c12_extract(ctx, ndir, files, alphabet=b"/.a"):
+    """files: [(kind, number of symbolic path characters)]"""
+    import intrinsics3
+    from intrinsics3 import FsLog, ValIter, PathV
+    from symex import Opaque
+    extract = ctx.impl_fn("extract", None, "Package")
+    ex = Exec(ctx.funcs, intrinsics.I, max_steps=400000)
+    ctx.stats = ex.stats
+    ctx.bounds = ("Package::extract into \"/t\" of a package with one directory name of %d symbolic characters and %s, characters over {%s}; the file system is a stub that records every call, lets each call "
+                  "succeed or fail, answers exists() arbitrarily and keeps track of the symbolic links the extraction itself creates (the target is freshly created, hence empty)"
+                  % (ndir, ", then ".join("a %s entry with a path of %d symbolic characters" % f for f in files) or "no files", ",".join(repr(chr(c)) for c in alphabet)))
+
+    def setup(e):
+        def sym(name, n):
+            v = [z3.BitVec("%s%d" % (name, i), 8) for i in range(n)]
+            for x in v:
+                e.solver.add(z3.Or([x == c for c in alphabet]))
+            return v
+        return sym("d", ndir), [sym("f%d_" % i, n) for i, (_, n) in enumerate(files)]
+
+    def body(e, inp):
+        d, fps = inp
+        intrinsics3.FS[0] = FsLog(b"/t")
+        hdr = header([index_entry(tag("RPMTAG_DIRNAMES"), index_data("StringArray", VecV([string(d)])), 0)], [])
+        pkg = package(header([], []), hdr, [])
+        items = []
+        for (kind, _), fp in zip(files, fps):
+            mode = {"regular": Adt("FileMode", "Regular", [Int(0o644, "u16")]), "dir": Adt("FileMode", "Dir", [Int(0o755, "u16")]),
+                    "symlink": Adt("FileMode", "SymbolicLink", [Int(0o777, "u16")]), "special": Adt("FileMode", "Invalid", [Int(0o020644, "i32"), Str.lit(b"unknown file type")])}[kind]
+            fe = Adt("FileEntry", "FileEntry", [PathV(fp), mode, Opaque("FileOwnership"), Opaque("Timestamp"), Int(1, "usize"), Opaque("FileFlags"), Adt("Option", "None"),
+                                                Adt("Option", "None"), string(b"../outside"), Adt("Option", "None")])
+            items.append(Adt("Result", "Ok", [Adt("RpmFile", "RpmFile", [fe, byte_vec([1])])]))
+        e.overrides = {"package::Package::files": lambda ex_, a, f: Adt("Result", "Ok", [ValIter(items)]), "Package::files": lambda ex_, a, f: Adt("Result", "Ok", [ValIter(items)])}
+        r = e.call_fn(extract, [Ref(Cell(pkg)), Str.lit(b"/t")])
+        return r, intrinsics3.FS[0]
+
+    def on_path(e, inp, out):
+        k, v = out
+        d, fps = inp
+
+        def wit():
+            return dict(dir=model_bytes(e, d).hex(), files=[[kind, model_bytes(e, fp).hex()] for (kind, _), fp in zip(files, fps)])
+        if k != "return":
+            ctx.fail("extraction panics: %s" % (v,), "Package::extract", kind="c12panic", **wit())
+            return
+        r, fs = v
+        ctx.cover("extraction succeeds", r.variant == "Ok")
+        ctx.cover("extraction returns an error", r.variant == "Err")
+        if fs.violations:
+            op, p, why = fs.violations[0]
+            ctx.fail("extraction reaches outside the target directory: %s (%s)" % (why, op), "Package::extract", kind="c12escape", op=op, path=model_bytes(e, p).hex(), **wit())
+
+    ex.run_all(setup, body, on_path)
+
+
+def replay_c12(ctx, fl):
+    import rpmbytes as RB
+    modes = {"regular": 0o100644, "dir": 0o040700, "symlink": 0o120777, "special": 0o020644}
+    d = bytes.fromhex(fl["dir"])
+    outs = []
+    for linkto in (b"../outside", b"../outside/victim", b"../../victim"):
+        pk = RB.files_package([d, b""], [(1, bytes.fromhex(h), modes[k], linkto if k == "symlink" else b"", b"" if k in ("dir", "symlink") else b"pwned") for k, h in fl["files"]])
+        ans = ctx.native.ask("extract", pk.hex())
+        outs.append(ans)
+        if fl["kind"] == "c12panic" and ans.startswith("panic"):
+            return True, "real crate: Package::extract -> " + ans[:200]
+        if fl["kind"] == "c12escape" and ans.startswith("escaped"):
+            return True, "real crate: Package::extract into <scratch>/jail/t (symlink target %s) -> %s" % (linkto.decode(), ans[:300])
+    return False, "real crate: Package::extract -> " + " | ".join(o[:80] for o in outs)
+
+
+REPLAYERS["c12"] = replay_c12
+for _n in (1, 2, 3, 4, 5):
+    HARNESSES["c12_dirs_%d" % _n] = (lambda n: (lambda ctx: c12_extract(ctx, n, [])))(_n)
+for _k in ("regular", "dir", "symlink", "special"):
+    for _n in (2, 4, 5, 6):
+        HARNESSES["c12_file_%s_%d" % (_k, _n)] = (lambda k, n: (lambda ctx: c12_extract(ctx, 1, [(k, n)])))(_k, _n)
+# a symbolic link followed by an entry of the same path or below it
+for _k in ("regular", "dir", "symlink"):
+    for (_a, _b) in ((1, 1), (1, 3), (2, 2), (2, 4), (2, 5), (3, 5)):
+        HARNESSES["c12_link_then_%s_%d_%d" % (_k, _a, _b)] = (lambda k, a, b: (lambda ctx: c12_extract(ctx, 0, [("symlink", a), (k, b)], alphabet=b"/.ab")))(_k, _a, _b)
